@@ -671,15 +671,27 @@ def scenario_argv(sc):
         if fl.get("tree"):
             a += ["--tree"]
     if sc["kind"] == "files":
-        a += ["f%d.sql" % i for i in range(len(sc["texts"]))]
+        a += sc.get("_names") or ["f%d.sql" % i for i in range(len(sc["texts"]))]
     elif sc["kind"] == "inline":
         a += [sc["texts"][0]]
     return a
 
 
+def spelled_names(d, n, mode):
+    """other spellings of the same files f0.sql .. f(n-1).sql in directory d: with ./, through the parent directory,
+    through a sub-directory, absolute"""
+    base = os.path.basename(d.rstrip("/"))
+    forms = [lambda f: "./" + f, lambda f: "../%s/%s" % (base, f), lambda f: "sub/../" + f, lambda f: os.path.join(d, f), lambda f: f]
+    return [forms[(i + mode) % len(forms)]("f%d.sql" % i) for i in range(n)]
+
+
 def run_scenario(binp, scr, sc):
     d = scr.sub()
     before = {}
+    sc = dict(sc)
+    if sc["kind"] == "files" and sc["flags"].get("spell") is not None:
+        os.makedirs(os.path.join(d, "sub"), exist_ok=True)
+        sc["_names"] = spelled_names(d, len(sc["texts"]), sc["flags"]["spell"])
     if sc["kind"] == "files":
         for i, t in enumerate(sc["texts"]):
             if t is not None:
@@ -698,7 +710,7 @@ def run_scenario(binp, scr, sc):
         if os.path.isfile(pth):
             after[fn] = open(pth, "rb").read()
     shutil.rmtree(d, ignore_errors=True)
-    return dict(rc=rc, out=out, err=err, before=before, after=after)
+    return dict(rc=rc, out=out, err=err, before=before, after=after, cwd=d, names=sc.get("_names"))
 
 
 def v_outcome(lib, text, strict):
@@ -815,6 +827,13 @@ def judge(sc, r, lib):
                 idx = []
                 for g in got:
                     m = [i for i, n in enumerate(names) if n == g or n.replace("\\", "/") == g]
+                    if not m and r.get("names"):
+                        # the inputs were given under other spellings of their paths: the report names an input when
+                        # its entry resolves, from the working directory, to that input's file
+                        def res(x):
+                            x = x[7:] if x.startswith("file://") else x
+                            return os.path.normpath(os.path.join(r["cwd"], x))
+                        m = [i for i, n in enumerate(r["names"]) if res(n) == res(g)]
                     idx.append(m[0] if m else 999)
                 rep = sorted(idx)
                 if len(set(idx)) != len(idx):
@@ -971,6 +990,9 @@ def build_scenarios(tier, rng):
         for fmt in (None, "json", "sarif"):
             for strict in (False, True):
                 add("validate", "files", fs, fmt=fmt, strict=strict)
+    for mode in range(5):
+        for fmt in ("sarif", "json"):
+            add("validate", "files", [I[0], V[0], I[1], V[1], I[2]], fmt=fmt, spell=mode)
     add("validate", "files", sets[4], fmt="xml")
     add("validate", "files", sets[4], fmt="json", outfile="rep.json")
     add("validate", "files", sets[4], fmt="sarif", outfile="rep.sarif")
@@ -1015,7 +1037,9 @@ def build_scenarios(tier, rng):
             add("format", "inline", [t], **fl)
     add("format", "none", [])
     # lint
-    lsets = [[L[0]], [L[1]], [L[2]], [L[3]], [V[4]], [L[0], V[4], L[1]], [MISSING], [L[0], MISSING], [E[0]], [V[0], I[0]], [E[1]]]
+    lsets = [[L[0]], [L[1]], [L[2]], [L[3]], [V[4]], [L[0], V[4], L[1]], [MISSING], [L[0], MISSING], [E[0]], [V[0], I[0]], [E[1]],
+             # the file with the failing finding in every position (first, middle, last) among clean ones
+             [L[1], V[4]], [V[4], L[1]], [L[1], V[4], V[4]], [V[4], L[1], V[4]], [L[0], V[4]], [L[2], V[4], V[4]], [L[1], L[0], V[4]]]
     if tier != "quick":
         lsets += [s for s in sets[16:76]]
     for fs in lsets:
